@@ -13,6 +13,8 @@ import NngModel.Proofs.IdHash
 import NngModel.Proofs.Probe
 import NngModel.Proofs.IdVisit
 import NngModel.Proofs.ProbeAll
+import NngModel.Generated.Base
+import NngModel.Generated.C18
 namespace Nng.C18
 open Nng Nng.QSpec
 
